@@ -32,6 +32,7 @@ type E3Workload struct {
 	FailKind  int    `json:"fail_kind"`
 	Double    bool   `json:"double"` // two failing Checks of the same test in one process (normally within the same second)
 	NoDraw    bool   `json:"no_draw"`
+	Flaky     bool   `json:"flaky"` // the first execution fails at one site, every later one at another ("flaky test" report)
 }
 
 func (wl E3Workload) Prog() *Prog {
@@ -42,6 +43,12 @@ func (wl E3Workload) Prog() *Prog {
 	}
 	for i := 0; i < wl.Lines; i++ {
 		p.Body = append(p.Body, &Stmt{K: SLog, LogK: 5, LogN: wl.LineLen + 2*i})
+	}
+	if wl.Flaky {
+		p.NSites = 2
+		p.Body = append(p.Body, &Stmt{K: SIf, Cond: &Cond{Op: OpInvLT, C: 1}, Body: []*Stmt{{K: SFail, FKind: FailKind(wl.FailKind), Site: 0}}})
+		p.Body = append(p.Body, &Stmt{K: SFail, FKind: FailKind(wl.FailKind), Site: 1})
+		return p
 	}
 	p.Body = append(p.Body, &Stmt{K: SFail, FKind: FailKind(wl.FailKind), Site: 0})
 	return p
